@@ -699,6 +699,10 @@ class CE:
             if e.id in env:
                 return env[e.id]
             return self.global_name(e.id, f)
+        if t is ast.NamedExpr:
+            v = self.ev(e.value, env, f)
+            env[e.target.id] = v
+            return v
         if t is ast.Tuple:
             return tuple(self.ev(x, env, f) for x in e.elts)
         if t is ast.List:
